@@ -221,7 +221,7 @@ def main(tier, replay=None):
                 meshes[(rec["name"], rec["Dim"])] = rec
             behs = [b for b in em.payloads("BEH") if b["dim"] == 2 and b["mesh"] in (("T1", "T2", "T4") if tier == "quick" else ("T1", "T2", "T4", "Q1"))]
             rng.shuffle(behs)
-            behs = behs[:200 if tier == "quick" else 3000]
+            behs = behs[:150 if tier == "quick" else 3000]
             rep.coverage["bc_lists_token_replayed"] = len(behs)
             for c in c14.cases_from_tlc(behs, meshes, rng):
                 tid += 1
@@ -255,10 +255,10 @@ def main(tier, replay=None):
             cases[tid] = dict(mode="config", cfg=c, seed=s)
         parts = [b["parts"] for b in blk.payloads("BEH")]
         rng.shuffle(parts)
-        for i, p in enumerate(parts[:6 if tier == "quick" else len(parts)]):
+        for i, p in enumerate(parts[:4 if tier == "quick" else len(parts)]):
             tid += 1
             s = rng.randrange(1 << 30)
-            mat = "j2" if (i % 6 == 5) else "neohookean"
+            mat = "j2" if (i % 6 == 3) else "neohookean"
             traces.append(dict(id=tid, ev=[multi_event(p, mat, random.Random(s))]))
             cases[tid] = dict(mode="multi", parts=p, mat=mat, seed=s)
     for t in traces:
